@@ -222,3 +222,34 @@ package db
 //@ ensures[bound4] err == nil && result0 != nil && ecs.Family == 1 ==> ecs.SourceScope <= 32
 //@ ensures[bound6] err == nil && result0 != nil && ecs.Family != 1 ==> ecs.SourceScope <= 128
 //@ ensures[loc] err == nil && result0 != nil ==> !(result0.LocID[0] == 0 && result0.LocID[1] == 0) && !(result0.MapID[0] == 0 && result0.MapID[1] == 0)
+
+// ---- C11: weighted random sampling ------------------------------------------------------------------------
+// Add keeps at most MaxAnswers candidates per family; a full reservoir changes only by replacing a stored
+// candidate of MINIMAL key with the new one, and only when the new key is larger (top-k by key).
+//@ extern math Pow
+//@ pure
+//@ extern math/rand Rand.Uint32
+//@ pure
+//@ func Wrs.Add
+//@ requires w.MaxAnswers >= 1 && len(w.V4) <= w.MaxAnswers && len(w.V6) <= w.MaxAnswers
+//@ requires 0 <= rec.Offset && rec.Offset <= len(data)
+//@ requires localRand != nil
+//@ flag skip frame
+//@ modifies w
+//@ ensures[type] err != nil <==> (rec.Qtype != dns.TypeA && rec.Qtype != dns.TypeAAAA)
+//@ ensures[unsupported] err != nil ==> len(w.V4) == old(len(w.V4)) && len(w.V6) == old(len(w.V6)) && w.V4Count == old(w.V4Count) && w.V6Count == old(w.V6Count)
+//@ ensures[bound] len(w.V4) <= w.MaxAnswers && len(w.V6) <= w.MaxAnswers && w.MaxAnswers == old(w.MaxAnswers)
+//@ ensures[count4] rec.Qtype == dns.TypeA ==> w.V4Count == (old(w.V4Count) + 1) % 4294967296 && w.V6Count == old(w.V6Count) && len(w.V6) == old(len(w.V6))
+//@ ensures[count6] rec.Qtype == dns.TypeAAAA ==> w.V6Count == (old(w.V6Count) + 1) % 4294967296 && w.V4Count == old(w.V4Count) && len(w.V4) == old(len(w.V4))
+//@ ensures[grow4] rec.Qtype == dns.TypeA && old(len(w.V4)) < w.MaxAnswers ==> len(w.V4) == old(len(w.V4)) + 1 && forall(j, 0, old(len(w.V4)), w.V4[j] == old(w.V4[j]))
+//@ ensures[full4] rec.Qtype == dns.TypeA && old(len(w.V4)) == w.MaxAnswers ==> len(w.V4) == old(len(w.V4))
+//@ ensures[evictmin4] rec.Qtype == dns.TypeA && old(len(w.V4)) == w.MaxAnswers ==> forall(j, 0, len(w.V4), w.V4[j] == old(w.V4[j]) || forall(i, 0, len(w.V4), old(w.V4[i].Key) >= old(w.V4[j].Key)))
+//@ ensures[atmostone4] rec.Qtype == dns.TypeA && old(len(w.V4)) == w.MaxAnswers ==> forall(j, 0, len(w.V4), forall(i, 0, len(w.V4), (w.V4[j] != old(w.V4[j]) && w.V4[i] != old(w.V4[i])) ==> i == j))
+//@ ensures[keepmax4] rec.Qtype == dns.TypeA && old(len(w.V4)) == w.MaxAnswers ==> forall(j, 0, len(w.V4), w.V4[j].Key >= old(w.V4[j].Key))
+//@ ensures[grow6] rec.Qtype == dns.TypeAAAA && old(len(w.V6)) < w.MaxAnswers ==> len(w.V6) == old(len(w.V6)) + 1 && forall(j, 0, old(len(w.V6)), w.V6[j] == old(w.V6[j]))
+//@ ensures[full6] rec.Qtype == dns.TypeAAAA && old(len(w.V6)) == w.MaxAnswers ==> len(w.V6) == old(len(w.V6))
+//@ ensures[evictmin6] rec.Qtype == dns.TypeAAAA && old(len(w.V6)) == w.MaxAnswers ==> forall(j, 0, len(w.V6), w.V6[j] == old(w.V6[j]) || forall(i, 0, len(w.V6), old(w.V6[i].Key) >= old(w.V6[j].Key)))
+//@ ensures[atmostone6] rec.Qtype == dns.TypeAAAA && old(len(w.V6)) == w.MaxAnswers ==> forall(j, 0, len(w.V6), forall(i, 0, len(w.V6), (w.V6[j] != old(w.V6[j]) && w.V6[i] != old(w.V6[i])) ==> i == j))
+//@ ensures[keepmax6] rec.Qtype == dns.TypeAAAA && old(len(w.V6)) == w.MaxAnswers ==> forall(j, 0, len(w.V6), w.V6[j].Key >= old(w.V6[j].Key))
+//@ loop 0 invariant 0 <= idx0 && idx0 <= len(items) && (idx == -1 ==> minKey == key) && (idx != -1 ==> 0 <= idx && idx < idx0 && items[idx].Key == minKey && minKey < key) && forall(j, 0, idx0, items[j].Key >= minKey) && forall(j, 0, len(items), items[j] == old(w.V4[j])) && items == old(w.V4)
+//@ loop 1 invariant 0 <= idx1 && idx1 <= len(items) && (idx == -1 ==> minKey == key) && (idx != -1 ==> 0 <= idx && idx < idx1 && items[idx].Key == minKey && minKey < key) && forall(j, 0, idx1, items[j].Key >= minKey) && forall(j, 0, len(items), items[j] == old(w.V6[j])) && items == old(w.V6)
